@@ -1,6 +1,7 @@
 import Lean.Data.Json
 import XModel.Manager
 import XModel.Acyclic
+import XModel.ManagerC13
 /-! JSON codec shared by the driver suites (Appendix A of DESIGN.md).  Total: malformed input is
     `none`, never defaulted. -/
 namespace Codec
